@@ -64,6 +64,11 @@ type Kit struct {
 	knownHits   map[string]int64
 	notes       map[string]any
 	finished    bool
+
+	// WholeProcess is set by the whole-process harness (harness/e2e): saved cases
+	// whose sub-check name starts with "whole-process" belong to it and to no other
+	// part of the same property.
+	WholeProcess bool
 }
 
 // A Part describes one sub-check of a run.
@@ -369,6 +374,9 @@ func (k *Kit) Regress(t *testing.T, d Dispatch) {
 			t.Fatalf("verifkit: %s belongs to %s, not %s", f, doc.Property, k.ID)
 		}
 		sub := doc.Sub
+		if strings.HasPrefix(sub, "whole-process") != k.WholeProcess {
+			continue // a case of another part of this property
+		}
 		err = Guard(func() error { return d(sub, doc.Case) })
 		part.Done++
 		if err != nil {
